@@ -34,7 +34,8 @@ EVIDENCE = dict(
         "terminals that hide it (xterm family) are outside the theorem (TermCfg.cprClamps = false)",
         "pty / tty layer in raw mode is transparent; winsize (TIOCGWINSZ) equals the terminal's size",
         "every write()/writecmd() argument and every placeholder line is a sequence of complete control functions "
-        "(the tokenizer is in its ground state at call boundaries) and contains no status-report request",
+        "(`Closed`: the tokenizer is in its ground state at call boundaries — hypothesis of tracked_sound_bytes) and "
+        "contains no status-report request (an unread reply would be taken for the next cursor-position report)",
         "placeholder line contents (to_lines) and graphics-command bytes are inputs taken from the implementation",
     ],
 )
